@@ -10,3 +10,4 @@ def run(res):
     K = wc.base(Acts={'proc', 'process', 'fault'}, Ids={1}, MaxAuto=1, Types={'A'}, Bases={'A': set()}, Prios={-1, 0, 5},
                 Dts={0, 1}, **P)
     wc.check_and_replay(res, 'c07_processors', K, own, depth_all=4 if th else 3, walks=20000 if th else 3000, walk_len=40)
+    wc.trace_validate(res, 'c07_recorded', wc.big({'proc', 'process', 'fault', 'toggle', 'clear'}), 2000 if th else 150, 60)
